@@ -153,17 +153,25 @@ class ThreadFrame(object):
 
 
 class ScriptFrame(object):
-    """pseudo frame of a summary that performs several calls in sequence and then returns a value"""
-    __slots__ = ("pending", "final", "dest", "target")
+    """pseudo frame of a summary that performs several calls in sequence and then returns a value.
+    Results of the calls (fmt::Result: 0 = Ok) are accumulated: `acc` becomes 1 if any call returned Err;
+    `on_err` = (alloc, off) of a byte that is set to 1 in that case (a builder's `result` field);
+    with `final_from_acc` the summary returns the accumulated fmt::Result instead of `final`."""
+    __slots__ = ("pending", "final", "dest", "target", "acc", "on_err", "final_from_acc")
 
-    def __init__(self, pending, final, dest, target):
+    def __init__(self, pending, final, dest, target, on_err=None, final_from_acc=False):
         self.pending = pending
         self.final = final
         self.dest = dest
         self.target = target
+        self.acc = 0
+        self.on_err = on_err
+        self.final_from_acc = final_from_acc
 
     def copy(self):
-        return ScriptFrame(list(self.pending), self.final, self.dest, self.target)
+        f = ScriptFrame(list(self.pending), self.final, self.dest, self.target, self.on_err, self.final_from_acc)
+        f.acc = self.acc
+        return f
 
 
 class Token(object):
